@@ -185,6 +185,62 @@ def run(ctx):
                             ctx.count("node_level_checks")
                             both_ways(ctx, x, y, False, label + "@module",
                                       "modules differing by '%s'" % label)
+        # comparisons are repeated on the *same* objects after edits: the
+        # IR compared above is edited through public attributes (including
+        # a node taken out, given another UUID and put back) and must then
+        # equal a fresh build of the edited description, and no longer the
+        # old copy
+        if rnd.random() < 0.5:
+            a2, na2 = irbuild.build(sp, gtirb, rnd)
+            both_ways(ctx, a2, b, True, "equal-copies", "equal IRs")
+            sp3, edits = irbuild.mutate_live(rnd, gtirb, sp, na2, {},
+                                             rnd.randint(1, 4))
+            if edits:
+                lab = "after-live-edit:" + "+".join(sorted(
+                    {e.split(":")[0] for e in edits}))
+                case.ops = [{"spec": sp, "live_edits": edits}]
+                c3, _ = irbuild.build(shuffled(sp3, rnd), gtirb, rnd)
+                ctx.count("live_edit_pairs")
+                both_ways(ctx, a2, c3, True, lab,
+                          "an IR compared, edited in place (%s) and "
+                          "compared with a fresh build of what it is now"
+                          % ", ".join(edits))
+                same = gspec.normalize(sp3, with_aux_values=False) == \
+                    na_spec  # an "edit" may assign the value already there
+                both_ways(ctx, a2, b, same, lab + ":vs-old-copy",
+                          "an IR edited in place (%s) and its old copy"
+                          % ", ".join(edits))
+        # a detached interval (no IR, so no UUID table to keep) whose
+        # block gets another UUID in place between two comparisons
+        if rnd.random() < 0.3:
+            def mk(us):
+                bi = gtirb.ByteInterval(size=64, uuid=us[0])
+                for i, u in enumerate(us[1:]):
+                    (gtirb.CodeBlock if i % 2 else gtirb.DataBlock)(
+                        offset=i, size=1, uuid=u, byte_interval=bi)
+                return bi
+            import uuid as _u
+            us = [_u.UUID(int=rnd.getrandbits(128))
+                  for _ in range(rnd.randint(3, 7))]
+            x, y = mk(us), mk(us)
+            both_ways(ctx, x, y, True, "detached-interval", "equal "
+                      "detached intervals")
+            k = rnd.randrange(1, len(us))
+            new = _u.UUID(int=rnd.getrandbits(128))
+            for b_ in x.blocks:
+                if b_.uuid == us[k]:
+                    b_.uuid = new
+            us2 = list(us)
+            us2[k] = new
+            ctx.count("detached_interval_uuid_edits")
+            both_ways(ctx, x, mk(us2), True,
+                      "detached-interval:block-uuid-changed-in-place",
+                      "a detached interval one of whose blocks got another "
+                      "UUID, and a fresh equal interval")
+            both_ways(ctx, x, y, False,
+                      "detached-interval:block-uuid-changed-in-place:old",
+                      "a detached interval one of whose blocks got another "
+                      "UUID, and its old copy")
         if case.index % 101 == 0:
             ctx.sample({"summary": gspec.summary(sp),
                         "perturbations_available": len(ps),
